@@ -1,0 +1,215 @@
+//! Verification hooks (compiled only with `--cfg stylua_verif`).
+//!
+//! * `TracedAtomicI32` / `TracedAtomicU32`: drop-in twins of the std atomics used for the process
+//!   exit status. Every access is (a) a yield point of a controlled scheduler and (b) a trace event.
+//! * `role(..)`: names the calling thread (main / out / worker).
+//! * `event(..)`: logs a linearisation point; `yield_point(..)` additionally lets the scheduler
+//!   order it.
+//! * `fault(..)`: panics when `STYLUA_VERIF_PANIC` names the given path (a crashing worker).
+//!
+//! Environment:
+//!   STYLUA_VERIF_TRACE=<file>   append one JSON line per event (sequence numbers are assigned
+//!                               under the scheduler's mutex, never from a clock)
+//!   STYLUA_VERIF_SCHED=a,b,c    grants of the form `role:op` (e.g. `out:EXIT_CODE.load`,
+//!                               `main:EXIT_CODE.store`, `worker[a.lua]:send`); a thread reaching a
+//!                               yield point whose key occurs in the remaining schedule waits until
+//!                               that key is at the head; keys not in the schedule run freely. A
+//!                               grant that cannot be honoured within 2 s is skipped and recorded
+//!                               as `sched_infeasible`.
+use std::cell::RefCell;
+use std::io::Write;
+use std::sync::atomic::{AtomicI32, AtomicU32, Ordering};
+use std::sync::{Condvar, Mutex};
+use std::time::{Duration, Instant};
+
+struct Sched {
+    seq: u64,
+    schedule: Vec<String>,
+    trace: Option<String>,
+    loaded: bool,
+}
+
+static SCHED: Mutex<Sched> = Mutex::new(Sched {
+    seq: 0,
+    schedule: Vec::new(),
+    trace: None,
+    loaded: false,
+});
+static CV: Condvar = Condvar::new();
+
+thread_local! {
+    static ROLE: RefCell<String> = RefCell::new(String::from("?"));
+}
+
+pub fn role(name: &str) {
+    ROLE.with(|r| *r.borrow_mut() = name.to_string());
+}
+
+fn current_role() -> String {
+    ROLE.with(|r| r.borrow().clone())
+}
+
+fn load(s: &mut Sched) {
+    if s.loaded {
+        return;
+    }
+    s.loaded = true;
+    s.trace = std::env::var("STYLUA_VERIF_TRACE").ok();
+    if let Ok(v) = std::env::var("STYLUA_VERIF_SCHED") {
+        let text = if let Some(path) = v.strip_prefix('@') {
+            std::fs::read_to_string(path).unwrap_or_default()
+        } else {
+            v
+        };
+        s.schedule = text
+            .split(|c| c == ',' || c == '\n')
+            .map(|x| x.trim().to_string())
+            .filter(|x| !x.is_empty())
+            .collect();
+        s.schedule.reverse(); // head = last element
+    }
+}
+
+fn emit(s: &mut Sched, role: &str, ev: &str, fields: &str) {
+    s.seq += 1;
+    if let Some(path) = &s.trace {
+        if let Ok(mut f) = std::fs::OpenOptions::new().create(true).append(true).open(path) {
+            let _ = writeln!(
+                f,
+                "{{\"seq\":{},\"role\":{:?},\"ev\":{:?}{}{}}}",
+                s.seq,
+                role,
+                ev,
+                if fields.is_empty() { "" } else { "," },
+                fields
+            );
+        }
+    }
+}
+
+/// Run `op` at a yield point named `key_op` (the scheduler key is `<role>:<key_op>`), holding the
+/// scheduler's mutex so that trace order is execution order. `describe` renders the result.
+fn scheduled<T>(key_op: &str, op: impl FnOnce() -> T, describe: impl FnOnce(&T) -> String) -> T {
+    let role = current_role();
+    let key = format!("{}:{}", role, key_op);
+    let mut s = SCHED.lock().unwrap_or_else(|e| e.into_inner());
+    load(&mut s);
+    let started = Instant::now();
+    loop {
+        let at_head = s.schedule.last().map_or(false, |h| *h == key);
+        let mentioned = s.schedule.iter().any(|h| *h == key);
+        if at_head || !mentioned {
+            if at_head {
+                s.schedule.pop();
+            }
+            let r = op();
+            let d = describe(&r);
+            emit(&mut s, &role, key_op, &d);
+            CV.notify_all();
+            return r;
+        }
+        if started.elapsed() > Duration::from_secs(2) {
+            // the head grant cannot be honoured: skip it
+            let head = s.schedule.pop().unwrap_or_default();
+            emit(&mut s, &role, "sched_infeasible", &format!("\"skipped\":{:?},\"waiting\":{:?}", head, key));
+            CV.notify_all();
+            continue;
+        }
+        let (g, _) = CV
+            .wait_timeout(s, Duration::from_millis(50))
+            .unwrap_or_else(|e| e.into_inner());
+        s = g;
+    }
+}
+
+/// A linearisation point that the scheduler may order.
+pub fn yield_point(op: &str, fields: &str) {
+    let f = fields.to_string();
+    scheduled(op, || (), move |_| f);
+}
+
+/// A linearisation point that is only logged.
+pub fn event(ev: &str, fields: &str) {
+    let role = current_role();
+    let mut s = SCHED.lock().unwrap_or_else(|e| e.into_inner());
+    load(&mut s);
+    emit(&mut s, &role, ev, fields);
+}
+
+pub fn quote(s: &str) -> String {
+    format!("{:?}", s)
+}
+
+/// Panics when STYLUA_VERIF_PANIC names `path` (simulates a crash while formatting that file).
+pub fn fault(point: &str, path: &std::path::Path) {
+    if let Ok(v) = std::env::var("STYLUA_VERIF_PANIC") {
+        let p = path.display().to_string();
+        if v.split(',').any(|x| !x.is_empty() && p.ends_with(x)) {
+            event("fault", &format!("\"point\":{:?},\"path\":{:?}", point, p));
+            panic!("verification fault injected at {} for {}", point, p);
+        }
+    }
+}
+
+pub struct TracedAtomicI32 {
+    name: &'static str,
+    inner: AtomicI32,
+}
+
+impl TracedAtomicI32 {
+    pub const fn new(name: &'static str, v: i32) -> Self {
+        Self { name, inner: AtomicI32::new(v) }
+    }
+    pub fn load(&self, o: Ordering) -> i32 {
+        scheduled(&format!("{}.load", self.name), || self.inner.load(o), |r| format!("\"result\":{}", r))
+    }
+    pub fn store(&self, v: i32, o: Ordering) {
+        scheduled(&format!("{}.store", self.name), || self.inner.store(v, o), |_| format!("\"arg\":{}", v))
+    }
+    pub fn swap(&self, v: i32, o: Ordering) -> i32 {
+        scheduled(&format!("{}.swap", self.name), || self.inner.swap(v, o), |r| format!("\"arg\":{},\"result\":{}", v, r))
+    }
+    pub fn fetch_max(&self, v: i32, o: Ordering) -> i32 {
+        scheduled(&format!("{}.fetch_max", self.name), || self.inner.fetch_max(v, o), |r| format!("\"arg\":{},\"result\":{}", v, r))
+    }
+    pub fn fetch_add(&self, v: i32, o: Ordering) -> i32 {
+        scheduled(&format!("{}.fetch_add", self.name), || self.inner.fetch_add(v, o), |r| format!("\"arg\":{},\"result\":{}", v, r))
+    }
+    pub fn fetch_or(&self, v: i32, o: Ordering) -> i32 {
+        scheduled(&format!("{}.fetch_or", self.name), || self.inner.fetch_or(v, o), |r| format!("\"arg\":{},\"result\":{}", v, r))
+    }
+    pub fn compare_exchange(&self, current: i32, new: i32, s: Ordering, f: Ordering) -> Result<i32, i32> {
+        scheduled(
+            &format!("{}.compare_exchange", self.name),
+            || self.inner.compare_exchange(current, new, s, f),
+            |r| format!("\"expected\":{},\"arg\":{},\"ok\":{},\"result\":{}", current, new, r.is_ok(), match r { Ok(x) | Err(x) => *x }),
+        )
+    }
+    pub fn fetch_update<F: FnMut(i32) -> Option<i32>>(&self, s: Ordering, f: Ordering, func: F) -> Result<i32, i32> {
+        scheduled(
+            &format!("{}.fetch_update", self.name),
+            || self.inner.fetch_update(s, f, func),
+            |r| format!("\"ok\":{},\"result\":{}", r.is_ok(), match r { Ok(x) | Err(x) => *x }),
+        )
+    }
+}
+
+pub struct TracedAtomicU32 {
+    name: &'static str,
+    inner: AtomicU32,
+}
+
+impl TracedAtomicU32 {
+    pub const fn new(name: &'static str, v: u32) -> Self {
+        Self { name, inner: AtomicU32::new(v) }
+    }
+    pub fn load(&self, o: Ordering) -> u32 {
+        scheduled(&format!("{}.load", self.name), || self.inner.load(o), |r| format!("\"result\":{}", r))
+    }
+    pub fn store(&self, v: u32, o: Ordering) {
+        scheduled(&format!("{}.store", self.name), || self.inner.store(v, o), |_| format!("\"arg\":{}", v))
+    }
+    pub fn fetch_add(&self, v: u32, o: Ordering) -> u32 {
+        scheduled(&format!("{}.fetch_add", self.name), || self.inner.fetch_add(v, o), |r| format!("\"arg\":{},\"result\":{}", v, r))
+    }
+}
